@@ -516,7 +516,7 @@ def nonneg_var(func, name, extra_fn=None, depth=0):
                 return False
             extra = extra_fn(func, n) if extra_fn else []
             res, _ = prove_index(func, n, Lin(k=0), l, extra)
-            if res != PROVEN:
+            if res != PROVEN and not _clamped_before_use(func, n, name):
                 return False
         elif op == "+=":
             l = linearize(r)
@@ -528,6 +528,38 @@ def nonneg_var(func, name, extra_fn=None, depth=0):
         else:
             return False
     return n_st > 0
+
+
+def _clamped_before_use(func, store, name):
+    """after `name = e` every path to a use of `name` as an index or an argument passes the
+    clamp `if (name < 0) name = 0;` (or `<=`)"""
+    cfg = func.cfg
+    clamps = []
+    for st in func.walk():
+        if st["k"] != "if" or st.get("t") is None or st.get("e") is not None:
+            continue
+        c = strip_casts(st["c"])
+        if not (c["k"] == "bin" and c["op"] in ("<", "<=") and key(strip_casts(c["l"])) == name and cval(c["r"]) == 0):
+            continue
+        body = [x for x in walk(st["t"]) if x["k"] == "bin" and x["op"] == "=" and x["l"]["k"] == "ref" and
+                x["l"]["name"] == name and cval(x["r"]) == 0]
+        if body:
+            clamps.append(c["id"])
+    if not clamps:
+        return False
+
+    def uses(e):
+        if e == ("exit",) or e == store["id"]:
+            return False
+        n_ = func.nodes.get(e)
+        if n_ is None:
+            return False
+        if n_["k"] == "sub" and any(r_["name"] == name for r_ in refs(n_["idx"])):
+            return True
+        if n_["k"] == "call" and any(r_["name"] == name for a_ in n_["args"] for r_ in refs(a_)):
+            return True
+        return False
+    return cfg.search(cfg.pos(store), uses, avoid=lambda e: e in clamps) is None
 
 
 def guarded_inc_hyps(func, use, names):
